@@ -346,6 +346,7 @@ func execC06(seg []Ev) []Ev {
 			}
 			oc, r, det := opOutcome(func() (*variants.Variant, error) { return binCall(m, name, a, b) })
 			e["outcome"], e["r"] = oc, valJSON(r)
+			e["bfits"] = b == nil || fitsInt64(b)
 			if h, ok := hostBin(name, a, b, mgr == "unsafe"); ok {
 				e["host"] = valJSON(h)
 			}
